@@ -146,17 +146,29 @@ func c01Raw(c *caseCtx) (res caseResult) {
 	fin := &tmsg{Sender: -1, Final: true, done: make(chan struct{})}
 	in.Send(actor.Envelope{Msg: fin})
 	res.Desc = fmt.Sprintf("raw size=%d senders=%d per=%d start=%d", size, nS, per, startWhen)
-	select {
-	case <-fin.done:
-	case <-time.After(wd / 3):
-		// decide on state: if one further send makes the stranded messages appear, they were
-		// resting in an idle inbox and would never have been handed over on their own
+	isDone := func(ch chan struct{}) func() bool {
+		return func() bool {
+			select {
+			case <-ch:
+				return true
+			default:
+				return false
+			}
+		}
+	}
+	invoked := func() int64 { p.mu.Lock(); defer p.mu.Unlock(); return int64(len(p.got)) }
+	if fin1, stalled := settle(wd, 10*time.Second, isDone(fin.done), invoked); !fin1 {
+		if !stalled {
+			res.inconclusive("final marker not invoked within the watchdog although invocations were still coming (%s)", res.Desc)
+			return
+		}
+		// nothing has been invoked for 10 s and the marker is still missing. Decide on state: if one further
+		// send makes the stranded messages appear, they were resting in an idle inbox
 		in.Send(actor.Envelope{Msg: &tmsg{Sender: -3}})
-		select {
-		case <-fin.done:
-			res.violate("the final marker (and what was queued before it) was handed over only after a further send kicked the inbox: messages sent to a live inbox were not delivered (%s)", res.Desc)
-		case <-time.After(wd / 3):
-			res.inconclusive("final marker not invoked within the watchdog, also after a kick (%s)", res.Desc)
+		if fin2, _ := settle(wd/3, 10*time.Second, isDone(fin.done), invoked); fin2 {
+			res.violate("the final marker (and what was queued before it) was handed over only after a further send kicked the inbox, which had been quiet for 10 s: messages sent to a live inbox were not delivered (%s)", res.Desc)
+		} else {
+			res.inconclusive("final marker not invoked, also after a kick (%s)", res.Desc)
 		}
 		return
 	}
@@ -263,11 +275,15 @@ func c01Judge(res *caseResult, sent [][]sentRec, got []actor.Envelope, batons []
 // plainRecv records without any synchronisation: its log is read only after
 // the final marker's channel close (happens-before, if C02 holds).
 type plainRecv struct {
-	got     []actor.Envelope
-	gateIn  chan struct{}
-	gateOut chan struct{}
-	target  *actor.PID // for the forwarding actor
+	delivered     int64 // progress indicator (atomic); only kept in the plain build: an atomic in Receive would
+	countProgress bool  // order the Receives for the race detector
+	got           []actor.Envelope
+	gateIn        chan struct{}
+	gateOut       chan struct{}
+	target        *actor.PID // for the forwarding actor
 }
+
+func (p *plainRecv) progress() int64 { return atomic.LoadInt64(&p.delivered) }
 
 type gateMsg struct{}
 type goMsg struct {
@@ -282,6 +298,9 @@ func (p *plainRecv) Receive(c *actor.Context) {
 		close(p.gateIn)
 		<-p.gateOut
 	case *tmsg:
+		if p.countProgress {
+			atomic.AddInt64(&p.delivered, 1)
+		}
 		p.got = append(p.got, actor.Envelope{Msg: m, Sender: c.Sender()})
 		if m.Final {
 			close(m.done)
@@ -313,7 +332,7 @@ func c01Engine(c *caseCtx) (res caseResult) {
 		backlog = 0
 	}
 	trickle := 1 + r.Intn(20)
-	rc := &plainRecv{gateIn: make(chan struct{}), gateOut: make(chan struct{})}
+	rc := &plainRecv{gateIn: make(chan struct{}), gateOut: make(chan struct{}), countProgress: c.mode == "engine-plain"}
 	crashy := r.Intn(3) == 0
 	pid := e.Spawn(func() actor.Receiver { return rc }, "c01", actor.WithID("t"), actor.WithInboxSize(size), actor.WithMaxRestarts(1000000), actor.WithRestartDelay(0))
 	fw := &plainRecv{}
@@ -406,15 +425,32 @@ func c01Engine(c *caseCtx) (res caseResult) {
 	fin := &tmsg{Sender: -1, Final: true, done: make(chan struct{})}
 	e.Send(pid, fin)
 	res.Desc = fmt.Sprintf("engine size=%d senders=%d backlog=%d(class %d) trickle=%d actor-to-actor=%d crashes-in-between=%v", size, nS, backlog, backlogClass, trickle, fwN, crashy)
-	select {
-	case <-fin.done:
-	case <-time.After(wd / 3):
-		e.Send(pid, &tmsg{Sender: -3})
+	isDone := func() bool {
 		select {
 		case <-fin.done:
-			res.violate("the final marker (and what was queued before it) was received only after a further send kicked the actor: messages sent to a live actor were not delivered (%s)", res.Desc)
-		case <-time.After(wd / 3):
-			res.inconclusive("final marker not received within the watchdog, also after a kick (%s)", res.Desc)
+			return true
+		default:
+			return false
+		}
+	}
+	if !rc.countProgress {
+		// -race build: no progress counter (it would synchronise the Receives); a missing marker is left to the plain build
+		select {
+		case <-fin.done:
+		case <-time.After(wd):
+			res.inconclusive("final marker not received within the watchdog (%s)", res.Desc)
+			return
+		}
+	} else if fin1, stalled := settle(wd, 10*time.Second, isDone, rc.progress); !fin1 {
+		if !stalled {
+			res.inconclusive("final marker not received within the watchdog although deliveries were still coming (%s)", res.Desc)
+			return
+		}
+		e.Send(pid, &tmsg{Sender: -3})
+		if fin2, _ := settle(wd/3, 10*time.Second, isDone, rc.progress); fin2 {
+			res.violate("the final marker (and what was queued before it) was received only after a further send kicked the actor, which had been quiet for 10 s: messages sent to a live actor were not delivered (%s)", res.Desc)
+		} else {
+			res.inconclusive("final marker not received, also after a kick (%s)", res.Desc)
 		}
 		return
 	}
